@@ -43,6 +43,7 @@ type vOracle struct {
 
 type vOp struct {
 	lost   bool
+	addSeg *vSeg // a segment completes: it is listed from the next tick on
 	oracle vOracle
 }
 
@@ -106,7 +107,12 @@ func vParseCases(r io.Reader) ([]*vCase, error) {
 					seg.offs = append(seg.offs, o)
 				}
 			}
-			cur.segs = append(cur.segs, seg)
+			if len(cur.ops) > 0 {
+				sg := seg
+				cur.ops = append(cur.ops, vOp{addSeg: &sg})
+			} else {
+				cur.segs = append(cur.segs, seg)
+			}
 		case "cycle":
 			if cur == nil || len(f) != 4 {
 				return nil, fmt.Errorf("bad cycle line %q", sc.Text())
@@ -145,7 +151,7 @@ func vParseCases(r io.Reader) ([]*vCase, error) {
 		default:
 			return nil, fmt.Errorf("bad line %q", sc.Text())
 		}
-		if f[0] == "case" || f[0] == "seg" {
+		if f[0] == "case" || (f[0] == "seg" && len(cur.ops) == 0) {
 			cur.head = append(cur.head, f[0])
 		}
 	}
@@ -156,6 +162,7 @@ func vParseCases(r io.Reader) ([]*vCase, error) {
 type vHarness struct {
 	mu        sync.Mutex
 	c         *vCase
+	segs      []vSeg // the current listing (grows when a segment completes)
 	cur       *vOracle
 	lease     int
 	prevLease int
@@ -177,6 +184,7 @@ type vHarness struct {
 
 func newVHarness(c *vCase) *vHarness {
 	h := &vHarness{c: c, lease: -1, curSeg: -1, sink: map[[2]int64]bool{}, mem: map[int]int64{}}
+	h.segs = append(h.segs, c.segs...)
 	h.innerLoad = func(tp int) (int64, error) {
 		if v, ok := h.mem[tp]; ok {
 			return v, nil
@@ -185,6 +193,13 @@ func newVHarness(c *vCase) *vHarness {
 	}
 	h.innerCommit = func(tp int, off int64) error { h.mem[tp] = off; return nil }
 	return h
+}
+
+// listing returns the current listing (the adapters' Lister fakes call it under onList).
+func (h *vHarness) listing() []vSeg {
+	h.mu.Lock()
+	defer h.mu.Unlock()
+	return append([]vSeg(nil), h.segs...)
 }
 
 func (h *vHarness) fault() vFault {
@@ -239,7 +254,7 @@ func (h *vHarness) onRelease() {
 func (h *vHarness) onLoad(tp int) (int64, error) {
 	h.mu.Lock()
 	defer h.mu.Unlock()
-	for h.cursor < len(h.c.segs) && h.c.segs[h.cursor].tp != tp {
+	for h.cursor < len(h.segs) && h.segs[h.cursor].tp != tp {
 		h.cursor++
 	}
 	h.curSeg = h.cursor
@@ -254,14 +269,14 @@ func (h *vHarness) onDecode(segKey string) ([]int64, int, error) {
 	h.mu.Lock()
 	defer h.mu.Unlock()
 	i := vSegIndex(segKey)
-	if i < 0 || i >= len(h.c.segs) {
+	if i < 0 || i >= len(h.segs) {
 		return nil, 0, fmt.Errorf("verif: unknown segment %q", segKey)
 	}
 	h.curSeg = i
 	if h.fault().kind == 'd' {
 		return nil, 0, errVerifInjected
 	}
-	return h.c.segs[i].offs, h.c.segs[i].tp, nil
+	return h.segs[i].offs, h.segs[i].tp, nil
 }
 
 func (h *vHarness) onFetch(off int64) error {
@@ -294,7 +309,7 @@ func (h *vHarness) onCommit(tp int, off int64) error {
 		return errVerifInjected
 	}
 	// direct monitor at the commit instant: nothing at or below the new checkpoint is unwritten
-	for _, seg := range h.c.segs {
+	for _, seg := range h.segs {
 		if seg.tp != tp {
 			continue
 		}
@@ -324,7 +339,7 @@ func (h *vHarness) line(lost bool) string {
 	}
 	h.wrote = nil
 	tps := map[int]bool{}
-	for _, s := range h.c.segs {
+	for _, s := range h.segs {
 		tps[s.tp] = true
 	}
 	var ids []int
@@ -375,6 +390,13 @@ func vDrive(h *vHarness, t0 time.Time, poll time.Duration, settle func()) []stri
 			h.mu.Lock()
 			h.failRenew = true
 			h.mu.Unlock()
+			continue
+		}
+		if op.addSeg != nil {
+			h.mu.Lock()
+			h.segs = append(h.segs, *op.addSeg)
+			h.mu.Unlock()
+			out = append(out, "seg")
 			continue
 		}
 		o := op.oracle
